@@ -687,7 +687,6 @@ package redis
 //@   flag tokens
 //@   requires c != nil
 //@   loop 0 assume c.filter != nil && (forall k int :: 0 <= k && k < len(c.filter.filters) ==> c.filter.filters[k] != nil)
-//@   assume @call FilterChain.Do r != nil && r.body != nil && len(r.body.Array) >= 1
 
 //@ func (*client).loopRead
 //@   prop C02 C01
